@@ -193,9 +193,8 @@ class SymArray(_np.ndarray):
         return core.Or(*[_truth(x) for x in self.flat])
 
     def round(self, decimals=0, out=None):
-        if decimals != 0:
-            raise Unsupported('round(decimals)')
-        return _elementwise(self, _rint1)
+        from .loader import PROXY
+        return PROXY.round(self, decimals)
 
     def tobytes(self, *a, **k):
         if Sym.HASHTRACE is not None:
@@ -398,7 +397,11 @@ class NPProxy:
     def round(self, a, decimals=0, out=None):
         if has_sym(a):
             if decimals != 0:
-                raise Unsupported('round(decimals=%r)' % decimals)
+                if not isinstance(decimals, (int, _np.integer)) or decimals < 0 or decimals > 12:
+                    raise Unsupported('round(decimals=%r)' % decimals)
+                sc = 10 ** int(decimals)
+                f = lambda x: (_rint1(x * sc) / sc) if isinstance(x, Sym) else _np.round(x, decimals)   # noqa: E731
+                return _elementwise(a, f) if not isinstance(a, Sym) else f(a)
             return _elementwise(a, _rint1) if not isinstance(a, Sym) else a.rint()
         return _np.round(a, decimals)
     around = round
